@@ -130,9 +130,10 @@ class WSchema(World):
   name = 'W_schema'
   setup = REC_SETUP
 
-  def __init__(self, reduced=False, renames=True):
+  def __init__(self, reduced=False, renames=True, calc_failure=False):
     self.reduced = reduced
     self.renames = renames
+    self.calc_failure = calc_failure     # adds a bundle that raises in the calc phase (C04 only)
 
   def alphabet(self, doc):
     out = []
@@ -223,6 +224,12 @@ class WSchema(World):
                                 ["RemoveColumn", "People", "name"],
                                 ["ModifyColumn", "People", "f_age2", {"formula": "$yrs * 3"}]]))
     # natural failures
+    if people and self.calc_failure and hp('age'):
+      # docmodel.add takes the list as per-record bulk values; the TypeError comes from
+      # _maybe_update_trigger_dependencies, i.e. after the user-action loop
+      A(("FAIL addcol recalcDeps list", [["AddColumn", "People", "t_x", {
+          "type": "Int", "isFormula": False, "formula": "1", "recalcWhen": 0,
+          "recalcDeps": ["L", col_ref(doc, 'People', 'age')]}]]))
     if people and not self.reduced:
       A(("FAIL remcol missing", [["RemoveColumn", "People", "nope"]]))
       A(("FAIL add then bad", [["AddColumn", "People", "tmpc", {"type": "Int", "isFormula": False}],
